@@ -6,7 +6,11 @@ janet source itself is stored in the replay file.
 
 PRELUDE = r'''
 # wait (logically, not by the clock) until nothing but the caller is outstanding in the event loop
-(defn quiesce [] (while (pos? ((c20/stats) 0)) (ev/sleep 0.001)))
+# (judged by the independent ground truth: heap walk + self-pipe fill + helper threads); then the pending-work counter must be 0
+(defn quiesce []
+  (while (pos? ((c20/stats) 5)) (ev/sleep 0.001))
+  (def lc ((c20/stats) 0))
+  (unless (= 0 lc) (errorf "COUNTER-LEAK listener_count=%d although nothing is outstanding" lc)))
 (defn settle []
   (for k 0 4 (ev/sleep 0))
   (quiesce)
@@ -16,6 +20,10 @@ PRELUDE = r'''
 # thread bodies are created by top-level functions: a closure made inside (main) drags main's environment (streams,
 # processes) into the marshalled thread image
 (defn do-thread-sleep [d] (ev/do-thread (os/sleep d)))
+# a helper thread nobody waits for; it logs its own completion: the loop must not return before that line
+(defn thread-nowait-log [d k] (ev/thread (fn [] (os/sleep d) (c20/log (string "done " k))) nil :n))
+# a helper thread that finishes only when the main thread says so (no race with the clock)
+(defn thread-wait-chan [c] (ev/thread (fn [] (ev/take c))))
 (defn thread-sleep [d] (ev/thread (fn [] (os/sleep d))))
 (defn thread-give [c d v] (ev/thread (fn [] (os/sleep d) (ev/give c v)) nil :n))
 (defn thread-echo [c back n] (ev/thread (fn [] (for k 0 n (ev/give back (ev/take c)))) nil :n))
@@ -119,6 +127,11 @@ CYCLES = {
   (ev/write w "x")
   (assert (deep= @"x" (ev/read r 1)) "pipe broken")
   (ev/close r) (ev/close w)'''),
+    "listen-port-in-use": ("net", r'''
+  (def [s port] (free-port-listener))
+  # EADDRINUSE: the socket created for the second listener must be closed on the error path
+  (assert (= :failed (try (do (net/listen "127.0.0.1" (string port) :stream true) :bound) ([e] :failed))))
+  (ev/close s)'''),
     "tcp-bad-address": ("cheap", r'''
   (try (net/connect "256.256.256.256.invalid" "80") ([e] nil))
   (try (net/listen "127.0.0.1" "not-a-port") ([e] nil))'''),
@@ -195,6 +208,14 @@ CYCLES = {
   (ev/take sup)'''),
     "do-thread-result": ("thread", r'''
   (ev/do-thread (os/sleep 0.0005))'''),
+    "thread-await-cancelled": ("thread", r'''
+  (def go (ev/thread-chan 1))
+  (def t (ev/spawn (try (thread-wait-chan go) ([e] nil))))
+  (ev/sleep 0)
+  (ev/cancel t "stop")     # the awaiting task is cancelled and finishes while its helper thread is still running
+  (ev/sleep 0)
+  (ev/give go :finish)
+  (quiesce)'''),
     # ---- cancelled waits, timers, deadlines
     "cancel-take": ("cheap", r'''
   (def c (ev/chan))
@@ -309,6 +330,13 @@ def _task(kind, k, rng):
     if kind == "stale-timeout":
         return ("(def [r%d w%d] (os/pipe))" % (k, k),
                 "(ev/write w%d \"z\") (ev/read r%d 1 nil 1000000) (ev/close r%d) (ev/close w%d) (ev/sleep %g)" % (k, k, k, k, d), "done", "")
+    if kind == "thread-nowait":
+        # fire and forget: only the event loop's own count keeps the program alive until the thread has finished
+        return "", "(thread-nowait-log %g %d)" % (d * 2, 1000 + k), "done", "", {1000 + k: "done"}
+    if kind == "proc-wait-abandoned":
+        # the waiter is cancelled, the process exits a little later: the helper thread is the only thing outstanding
+        return ("(def p%d (os/spawn [\"cat\"] :p {:in :pipe}))" % k, "(os/proc-wait p%d)" % k, "cancelled",
+                "(ev/cancel t%d :stop) (ev/spawn (ev/sleep %g) (ev/close (p%d :in)))" % (k, d, k))
     if kind == "loop1-interrupt":
         # the embedding API janet_loop1_interrupt (an event with a NULL callback), acknowledged at once
         return "", "(c20/loop1-interrupt) (ev/sleep %g)" % d, "done", ""
@@ -322,6 +350,9 @@ def _task(kind, k, rng):
     if kind == "cancel-read":
         return ("(def [r%d w%d] (os/pipe))" % (k, k), "(ev/read r%d 4)" % k, "cancelled",
                 "(ev/cancel t%d :stop) (ev/spawn (ev/sleep 0.002) (ev/close r%d) (ev/close w%d))" % (k, k, k))
+    if kind == "cancel-thread-await":
+        return ("(def go%d (ev/thread-chan 1))" % k, "(thread-wait-chan go%d)" % k, "cancelled",
+                "(ev/cancel t%d :stop) (ev/spawn (ev/sleep %g) (ev/give go%d :finish))" % (k, d, k))
     if kind == "cancel-proc-wait":
         return ("(def p%d (os/spawn [\"sleep\" \"100000\"] :p))" % k, "(os/proc-wait p%d)" % k, "cancelled",
                 "(ev/cancel t%d :stop) (os/proc-kill p%d)" % (k, k))
@@ -337,16 +368,20 @@ def _task(kind, k, rng):
 
 MIX_KINDS = ["sleep", "sleep-chain", "thread", "do-thread", "proc", "execute", "pipe", "proc-pipe", "tcp", "chan", "tchan-thread",
              "read-timeout", "deadline", "stale-deadline", "stale-timeout", "cancel-sleep", "cancel-take", "cancel-tchan-take",
-             "cancel-read", "cancel-proc-wait", "close-under-read", "chan-close-under-take", "loop1-interrupt"]
+             "cancel-read", "cancel-proc-wait", "close-under-read", "chan-close-under-take", "loop1-interrupt", "thread-nowait", "proc-wait-abandoned", "cancel-thread-await"]
 
 
 def mix_script(rng, ntasks, kinds=None):
     kinds = kinds or MIX_KINDS
-    setups, starts, extras, expect, chosen = [], [], [], {}, []
+    setups, starts, extras, expect, chosen, also = [], [], [], {}, [], {}
     for k in range(ntasks):
         kind = rng.choice(kinds)
         chosen.append(kind)
-        setup, body, exp, extra = _task(kind, k, rng)
+        res = _task(kind, k, rng)
+        setup, body, exp, extra = res[:4]
+        if len(res) > 4:
+            expect.update(res[4])
+            also[k] = list(res[4])
         if setup:
             setups.append("  " + setup)
         starts.append('  (def t%d (ev/go (fn [] (try (do %s (c20/log "done %d")) ([e] (c20/log (string "cancelled %d " e)))))))' % (k, body, k, k))
@@ -362,4 +397,9 @@ def mix_script(rng, ntasks, kinds=None):
     else:
         gap = "  (ev/sleep 0) (gccollect)"
     src = PRELUDE + "\n(defn main []\n" + "\n".join(setups + starts + [gap] + extras) + '\n  (c20/log "main returned"))\n'
-    return src, expect, chosen
+    # chosen is indexed by expectation id for the reports
+    kinds_by_id = {k: chosen[k] for k in range(ntasks)}
+    for k, ids in also.items():
+        for i in ids:
+            kinds_by_id[i] = chosen[k] + "(thread)"
+    return src, expect, kinds_by_id
